@@ -400,7 +400,7 @@ class Interp:
                     from .ops import tv_of
 
                     cur_ = tv_of(env.lookup(nm_)) if env.lookup(nm_) is not None else None
-                    if cur_ is not None and v.gen - cur_.gen and self.join_depth > 0:
+                    if cur_ is not None and v.gen - cur_.gen and self.join_depth > 0 and self.ops.loops_run_to_the_end(v.gen - cur_.gen):
                         self.event("accumulate", st, op="Add", target=nm_, rhs_origin=sorted(v.origin), over_loop_index=True, target_axes=list(cur_.axes),
                                    target_poly=repr(cur_.poly) if cur_.poly is not None else None)
                         v = v.but(gen=cur_.gen)
